@@ -25,7 +25,7 @@ META = {
 
 # >= 30x (small: 100x) the maximum observed on the repaired tree over the calibration runs (small 1.2M, threshold 2.2M,
 # structured 0.04M, deep 72M events); a genuine endless loop trips any finite limit.
-STEP_LIMIT = {"small": 40_000_000, "threshold": 120_000_000, "structured": 5_000_000, "deep": 1_500_000_000}
+STEP_LIMIT = {"gadget": 20_000_000, "small": 40_000_000, "threshold": 120_000_000, "structured": 5_000_000, "deep": 1_500_000_000}
 
 
 def call_sat(desc, ctx, events=None):
@@ -116,6 +116,7 @@ def run(desc, ctx):
 
 SUBS = [
     Sub("mixed", run, strategy=lambda tier: cnf.mixed(tier), quick=800, thorough=8000, workers_quick=4),
+    Sub("gadget", run, strategy=lambda tier: cnf.gadget_cnf(), quick=5000, thorough=30000, workers_quick=4),
     Sub("deep", run, strategy=lambda tier: cnf.deep_cnf(10, 13 if tier == "thorough" else 12), quick=6, thorough=12, workers_quick=4, case_timeout=300),
 ]
 AMPLIFY = [("mixed", 15000, 4)]  # (sub-check, executions, parallel copies) for the thorough tier (vf/fuzz.py)
